@@ -56,6 +56,12 @@ CLAIMED["C04"] = dict(
          "image_blocks/first_boot_tag_block with the SHA flag, counter wrap (refused; C09).",
     ref="DESIGN.md section 3 C04")
 
+CLAIMED["C05"] = dict(
+    technique="symbolic execution of the real SB3.1 builder incl. the real CertBlockV21 (symx) over UF/ideal-cipher crypto "
+              "stubs and stub ECC keys + z3 QF_BV; oracle = independent ROM-loader model over the exported symbolic bytes",
+    note="Out of the claim: real AES-CBC/CMAC/SHA/ECDSA (stubbed), curve membership of keys, config-file plumbing, DevHSM.",
+    ref="DESIGN.md section 3 C05")
+
 NOT_APPLICABLE = {
     "C18": "quantifies over OS-level crash points of a pickle file and over process schedules around a FileLock; the "
            "deciding code is pickle (C) / the file system / the scheduler - no SPSDK arithmetic or layout to encode; "
